@@ -206,15 +206,30 @@ def regenerate(ctx):
     ctx.coverage["tie1_source_facts"] = dict(facts, blobPattern=pattern)
 
 
+# finding id -> the flag of the model's variant that its repair switches on (probed on the real handlers)
+REPAIR_FLAG = {"F16a": "fixAlias", "F16b": "fixResolve", "N1": "fixReturn", "N2": "fixKeep", "N3": "fixPullName",
+               "N4": "fixFromResolve"}
+
+
+def expected_fixed(ctx):
+    """the repairs the tree under test MUST contain: every C04 finding recorded as `fixed` in KNOWN_FINDINGS.jsonl
+    (a `known` finding may or may not be repaired in the tree: both variants are modelled)"""
+    return sorted(REPAIR_FLAG[f["id"]] for f in ctx.findings
+                  if f.get("property") == "C04" and f.get("status") == "fixed" and f.get("id") in REPAIR_FLAG)
+
+
 def run(ctx):
     regenerate(ctx)
-    ctx.lean_check(MODULES, THEOREMS)
+    if ctx.lean_check(MODULES, THEOREMS) is False:
+        # banned construct / axiom or closure audit failed: never exit 0 on that
+        ctx.violation("proof-obligation", "lean audit", "; ".join(ctx.notes)[:1500], no_input=True)
     import os
-    env = {"VERIF_N": ctx.scale(300, 4000), "VERIF_OPS": 40,
+    must = expected_fixed(ctx)
+    env = {"VERIF_N": ctx.scale(300, 3000), "VERIF_OPS": 40, "VERIF_C04_EXPECT_FIXED": ",".join(must),
            "VERIF_CORPUS": os.path.join(core.ROOT, "corpus", "C04")}
     if ctx.replay:
         env["VERIF_REPLAY"] = ctx.replay_line_file()
-    rc, out, outdir = ctx.go_test("./server/", OVERLAY, "^TestVerifC04$", env=env, timeout=1500)
+    rc, out, outdir = ctx.go_test("./server/", OVERLAY, "^TestVerifC04$", env=env, timeout=4000)
     if rc != 0:
         ctx.violation("driver-failed", "", out[-1500:], no_input=True)
     st = ctx.read_stats(outdir)
@@ -225,7 +240,8 @@ def run(ctx):
         if missing and rc == 0:
             ctx.violation("correspondence-coverage", "",
                           "branches of the model never exercised by this run's histories: " + ", ".join(missing), no_input=True)
-    ctx.coverage["variant_under_test"] = {k: bool(st.get("variant_" + k, 0)) for k in ("fixAlias", "fixResolve", "fixReturn", "fixKeep", "fixPullName")}
+    ctx.coverage["variant_under_test"] = {k: bool(st.get("variant_" + k, 0)) for k in sorted(REPAIR_FLAG.values())}
+    ctx.coverage["variant_expected_fixed"] = must   # a probe that disagrees is the L2 failure `variant-regressed`
     ctx.l1(outdir)
     ctx.classify(ctx.l2(outdir))
     if ctx.thorough:
